@@ -71,6 +71,12 @@ package jsonapi
 //@ ensures same-map: old(t.Rels) != nil ==> t.Rels == old(t.Rels)
 //@ ensures fresh-map: old(t.Rels) == nil && result == nil ==> fresh(t.Rels) && t.Rels != nil
 //@ ensures wf: relsWf(t.Rels)
+
+//@ func Type.checkRel
+//@ props C14 C19
+//@ requires nonnil: t != nil
+//@ requires wf: relsWf(t.Rels)
+//@ ensures accept: (result == nil) == (rel.FromName != "" && rel.ToType != "" && !(rel.FromName in t.Rels))
 //@ loop 0 invariant none-so-far: forall k string :: visited(k) ==> t.Rels[k].FromName != rel.FromName
 
 //@ func Type.RemoveRel
